@@ -18,14 +18,24 @@ def symbols():
     }
 
 
-def random_env(rng, n_ch: int, n_poles: int, n_s: int, complex_beta: bool = True):
-    """Real pole masses / widths / residues; s above all thresholds and away from poles."""
+def random_env(rng, n_ch: int, n_poles: int, n_s: int, complex_beta: bool = True, subthreshold: bool = False):
+    """Real pole masses / widths / residues; s above all thresholds and away from poles.
+
+    ``subthreshold``: the lightest pole lies below the highest channel threshold (a closed channel at the pole
+    mass, Flatte-like) - still real parameters and s above all thresholds."""
     S = symbols()
     ma = rng.uniform(0.1, 0.6, n_ch)
     mb = np.where(rng.uniform(size=n_ch) < 0.3, ma, rng.uniform(0.1, 0.6, n_ch))
     thr = float(np.max((ma + mb) ** 2))
     m = np.zeros(n_poles + 1)
     m[1:] = np.sort(rng.uniform(np.sqrt(thr) * 1.05, np.sqrt(thr) * 1.05 + 2.0, n_poles))
+    if subthreshold:
+        # between the lowest and the highest threshold if they differ (open in one channel, closed in another),
+        # else below the common threshold
+        lo = float(np.min(ma + mb))
+        hi = float(np.sqrt(thr))
+        m[1] = rng.uniform(lo + 0.1 * (hi - lo), hi - 0.1 * (hi - lo)) if hi - lo > 0.05 else rng.uniform(0.5 * hi, 0.9 * hi)
+        m[1:] = np.sort(m[1:])
     G = np.zeros((n_poles + 1, n_ch)); G[1:] = rng.uniform(0.05, 0.4, (n_poles, n_ch))
     g = np.zeros((n_poles + 1, n_ch)); g[1:] = rng.uniform(0.3, 1.5, (n_poles, n_ch))
     beta = np.zeros(n_poles + 1, dtype=complex)
@@ -39,7 +49,8 @@ def random_env(rng, n_ch: int, n_poles: int, n_s: int, complex_beta: bool = True
             break
         s[bad] = rng.uniform(thr * 1.02, max(thr * 1.5, (m[-1] + 0.8) ** 2), int(bad.sum()))
     env = {S["s"]: s, S["m"]: m, S["Gamma"]: G, S["gamma"]: g, S["beta"]: beta, S["m_a"]: ma, S["m_b"]: mb}
-    desc = {"m_a": ma, "m_b": mb, "pole_masses": m[1:], "widths": G[1:], "residues": g[1:], "beta": beta[1:], "s": s}
+    desc = {"poles_below_a_threshold": int((m[1:, None] < (ma + mb)[None, :]).any(axis=1).sum()),
+            "m_a": ma, "m_b": mb, "pole_masses": m[1:], "widths": G[1:], "residues": g[1:], "beta": beta[1:], "s": s}
     return env, desc
 
 
